@@ -28,13 +28,41 @@ def child(c, d, resf):
     status = "ok"
     signal.alarm(int(c.get("timeout", 20)))
     try:
+        helpers = []
         if c.get("inmode", "file") == "stdin":
-            fd = os.open(src, os.O_RDONLY)
-            os.dup2(fd, 0)
+            # a real pipe (not seekable), fed by a helper process
+            r, w = os.pipe()
+            hp = os.fork()
+            if hp == 0:
+                os.close(r)
+                try:
+                    with open(src, "rb") as f, os.fdopen(w, "wb") as o:
+                        o.write(f.read())
+                except BaseException:  # noqa: BLE001  (the reader may stop early)
+                    pass
+                os._exit(0)
+            os.close(w)
+            os.dup2(r, 0)
+            os.close(r)
+            helpers.append(hp)
             sys.stdin = io.TextIOWrapper(io.FileIO(0, "rb", closefd=False))
         if c.get("outmode", "file") == "stdout" or c.get("inmode", "file") == "stdin":
-            fd = os.open(dst, os.O_WRONLY | os.O_CREAT | os.O_TRUNC)
-            os.dup2(fd, 1)
+            r, w = os.pipe()
+            hp = os.fork()
+            if hp == 0:
+                os.close(w)
+                os.close(0)
+                with os.fdopen(r, "rb") as i, open(dst, "wb") as o:
+                    while True:
+                        b = i.read(65536)
+                        if not b:
+                            break
+                        o.write(b)
+                os._exit(0)
+            os.close(r)
+            os.dup2(w, 1)
+            os.close(w)
+            helpers.append(hp)
             sys.stdout = io.TextIOWrapper(io.FileIO(1, "wb", closefd=False))
         sys.stderr = open(os.path.join(d, "err.txt"), "w")
         tool.start(argv)
@@ -51,6 +79,20 @@ def child(c, d, resf):
             sys.stderr.write(traceback.format_exc()[-250:])
             sys.stderr.flush()
         except Exception:  # noqa: BLE001
+            pass
+    try:
+        sys.stdout.flush()
+    except Exception:  # noqa: BLE001
+        pass
+    try:
+        os.close(1)
+        os.close(0)
+    except OSError:
+        pass
+    for hp in locals().get("helpers", []):
+        try:
+            os.waitpid(hp, 0)
+        except OSError:
             pass
     with open(resf, "w") as f:
         f.write(status)
